@@ -394,6 +394,8 @@ def run(ctx):
                         'output key of the enclosing recording: if the outer operation is then interrupted, its recording already holds an operation '
                         'output and is saved as complete (incomplete flag false, no exception flag)',
                         witness=dn.path_to(n_, s_) if n_ is not None else None, exit=rm.exit_kind(n_) if n_ is not None else None))
+    # ---- C18.i the default lookup is an observation point of the incomplete flag: the matcher applies the documented rule to it (shared with C14.b)
+    _cm18.import_clauses(ctx, res, 'C14', ['C14.b'], 'C18', 'C18.i', 'R-DECISION', 'the metadata matcher decides `[False, None]` by the documented rules', floor=4)
     return res
 
 
